@@ -25,6 +25,9 @@ from .. import spec as S
 
 PID = "C14"
 LEVEL = "exploration"
+# histories run in forked children: the parent must not have started polars' threads (a fork would copy their
+# locks), and failing calls are part of the histories themselves here
+PROVOKE_FAILURES = False
 RULE = ("histories = sequence of 0..4 prior operations {construct, encode, encode twice} on documents of a "
         "~30-document pool (plain 3/5 columns, coloured, paginated, page_by, subline_by, grouped, raising "
         "ValueError, multi-section x2, figure, explicit/inherited headers, near twins sharing border colours / "
@@ -127,6 +130,30 @@ def pool():
     P["pal12_b"] = {"kind": "table", "df": tagged(3, 4), "body": {"text_color": [palB[0:4], palB[4:8], palB[8:12]],
                                                                   "text_background_color": palB[12]},
                     "footnote": {"text": "FN0", "text_color": "coral"}}
+    # a multi-section document whose SECOND section fails to encode, and two documents with an equal-valued
+    # page component (shared with it in the sharing histories)
+    PG = {"border_first": "double", "border_last": "double", "nrow": 30}
+    P["multi_raising"] = {"kind": "multi", "multi_header": "nested", "page": dict(PG), "title": TT, "_raises": True,
+                          "sections": [{"df": tagged(3, 2), "body": {}, "colheader": "default"},
+                                       {"df": tagged(4, 2, base=3, extra=[{"name": "N2", "dtype": "str",
+                                                                            "values": ["a", "b", "a", "b"]}]),
+                                        "body": {"group_by": ["N2"]}, "colheader": "default"}]}
+    P["pg_dbl"] = {"kind": "table", "df": tagged(4, 2), "body": {}, "page": dict(PG), "title": TT, "footnote": FN}
+    P["multi_dbl"] = {"kind": "multi", "multi_header": "nested", "page": dict(PG), "title": TT,
+                      "sections": [{"df": tagged(2, 2), "body": {}, "colheader": "default"},
+                                   {"df": tagged(2, 3, base=2), "body": {}, "colheader": "default"}]}
+    # the same graded texts at 9pt and at 9.2pt (sizes that a half-point key cannot tell apart): rows whose text
+    # ends within a couple of per cent of a wrap boundary paginate differently at the two sizes
+    graded = {"name": "N2", "dtype": "str",
+              "values": [("lorem ipsum dolor sit amet consectetur adipiscing elit sed do eiusmod tempor " * 3)[:n]
+                         for n in range(20, 140, 2)]}
+    for nm, sz in (("graded_s9", 9), ("graded_s92", 9.2), ("graded_s87", 8.7)):
+        P[nm] = {"kind": "table", "df": tagged(60, 2, extra=[graded]), "title": TT,
+                 "body": {"text_font_size": sz, "col_rel_width": [1, 1, 2.2]}, "page": {"nrow": 14}}
+    # fails while encoding, inside the colour lookup (the palette is made invalid after construction)
+    P["badcolor"] = {"kind": "table", "df": tagged(3, 3), "body": {"text_color": ["red", "blue", "gold"]},
+                     "title": {"text": "TT0", "text_color": "darkgreen"}, "_raises": True,
+                     "post_assign": [["rtf_body", "text_color", [["red", "notacolour", "blue"]]]]}
     # the default colour spelled out ("black") next to real colours
     P["blk_a"] = {"kind": "table", "df": tagged(3, 3), "body": {"text_color": ["black", "red", "black"],
                                                                 "text_background_color": [["", "black", "wheat"]]},
@@ -327,7 +354,7 @@ def run_history(h, baselines):
                             kw[arg] = pkw[arg]
                             shared.append(k)
                     break
-        doc = rtf.RTFDocument(**kw)
+        doc = S.apply_post(rtf.RTFDocument(**kw), spec or POOL[name])
         built.append((name, kw, doc))
         return doc, shared
 
